@@ -22,7 +22,10 @@ RULE = ('Hypothesis draws circle / ellipse / rectangle / the three annuli as '
         'satisfy the pixel shape\'s boundary equation to 1e-6 + 3 phi^2 + 3 '
         'sigma^2; lengths equal angular size / local scale obtained from '
         'finite differences of pixel_to_world. Non-trivial: WCS rotation not a '
-        'multiple of 90 deg, region not a circle, width != height.')
+        'multiple of 90 deg, region not a circle, width != height. In half '
+        'of the cases the WCS object was first used (to_pixel, contains) in '
+        'another state - rotation, scale, CRVAL, CRPIX - and then edited in '
+        'place: the image must be that of the CURRENT WCS.')
 ASSUMPTIONS = [
     'phi = angular distance of the region from the projection centre, sigma '
     '= angular size of the region: off-axis a TAN/SIN projection is '
@@ -51,6 +54,12 @@ def strategy():
         'wcs': W.wcs_specs(projs=('TAN', 'SIN'), frames=('icrs', 'fk5',
                                                          'galactic'),
                            scale=(1e-5, 1e-2), parities=(-1,)),
+        # the WCS OBJECT has a past: it is first used in another state
+        # (rotation, scale, reference point) and then edited in place
+        'pre': st.one_of(st.none(), st.fixed_dictionaries({
+            'drot': st.floats(-170, 170), 'fscale': st.floats(-0.4, 0.4),
+            'dcrval': st.tuples(st.floats(-30, 30), st.floats(-30, 30)),
+            'dcrpix': st.tuples(st.floats(-40, 40), st.floats(-40, 40))})),
     })
 
 
@@ -102,9 +111,31 @@ class Image(Relation):
                                   ang)
             shapes = [('inner', wq * sp['f1'] / 2, hq * sp['f2'] / 2),
                       ('outer', wq / 2, hq / 2)]
+        from vf.fingerprint import fp
+        if sp.get('pre'):
+            # same WCS object, other state first: convert / query, then edit
+            # the object in place (as an astrometric refinement would)
+            pre = sp['pre']
+            w0 = dict(w, rot=w['rot'] + pre['drot'],
+                      scale=w['scale'] * 10.0 ** pre['fscale'],
+                      crval=[(w['crval'][0] + pre['dcrval'][0] * w['scale']) % 360.0,
+                             max(-85.0, min(85.0, w['crval'][1]
+                                            + pre['dcrval'][1] * w['scale']))],
+                      crpix=[w['crpix'][0] + pre['dcrpix'][0],
+                             w['crpix'][1] + pre['dcrpix'][1]])
+            target = wcs
+            wcs = S.build_wcs(w0)
+            try:
+                reg.to_pixel(wcs)
+                reg.contains(center, wcs)
+            except Exception:   # noqa: BLE001 - the earlier state is not judged
+                pass
+            wcs.wcs.cd = target.wcs.cd
+            wcs.wcs.crval = target.wcs.crval
+            wcs.wcs.crpix = target.wcs.crpix
+            ctx.label('wcs:edited-in-place')
         # the conversion is a pure function of (region, wcs): converting the
         # same region again gives the same image, and the region is untouched
-        from vf.fingerprint import fp
         fp_reg = fp(reg)
         first = reg.to_pixel(wcs)
         fp_first = fp(first)
